@@ -152,8 +152,19 @@ def gen_step(rng, vals):
     if not arr:
         return None
     i, (nm, obj, shape) = rng.choice(arr)
+    # objects that are still TYPED Variable although they are no longer plain Variables (x / 2, slices, transposes, reversals keep
+    # the type): prefer them, and push them through the operators that read their coefficients (matmul, dot, ...)
+    vtyped = [(j, w) for j, w in arr if isinstance(w[1], cl.Variable)]
+    if vtyped and rng.random() < 0.35:
+        i, (nm, obj, shape) = rng.choice(vtyped)
     nd = len(shape)
     ops = []
+    if isinstance(obj, cl.Variable):
+        ops += [('div_const', None, [i])] * 4 + [('reverse', lambda m, a: a[0][::-1], [i])]
+        if nd == 1:
+            ops += [('matmul_r1d', None, [i])] * 4 + [('dot', None, [i])] * 2
+        if nd == 2:
+            ops += [('matmul_r', None, [i])] * 4 + [('matmul_l', None, [i])] * 2
     # ---- unary / with constants
     ops += [('neg', lambda m, a: -a[0], [i]), ('add_const', None, [i]), ('mul_const', None, [i]), ('div_const', None, [i]),
             ('rsub_const', None, [i]), ('sum', None, [i]), ('ravel', lambda m, a: a[0].ravel(), [i]), ('T', lambda m, a: a[0].T, [i]),
@@ -316,6 +327,9 @@ def gen_step(rng, vals):
         return name, lambda m, a: a[0] @ sel.T, ins
     if name == 'matmul_r':
         c = rc(rng, [shape[1], rng.randint(1, 3)])
+        return name, lambda m, a: a[0] @ c, ins
+    if name == 'matmul_r1d':
+        c = rc(rng, [shape[0], rng.randint(1, 3)])
         return name, lambda m, a: a[0] @ c, ins
     if name == 'multi_dot':
         c1 = rc(rng, [2, shape[0]])
@@ -540,6 +554,17 @@ def nonlinear_stream(ctx, rng, count):
             else:
                 xp = cl_pos(x[0:1])
         pairs += [(xa, xp, False), (2 * xa + 1, 2 * xp + 1, False), (xa + z[0:1], z[0:1] + xa, True), (xa, x[0:1], False)]
+        # objects typed Variable whose coefficients are not 1 (x / 2 keeps the type)
+        dv = float(rng.choice([2, 4, -2, 0.5]))
+        pairs += [(x / dv, x, False), (x / dv, x * (1.0 / dv), True), ((x / dv)[::-1], x[::-1] * (1.0 / dv), True),
+                  (x[::-1], x, False), (x[::-1][::-1], x, True)]
+        # the same nonlinear atoms met in a different order: the weights sit on different atoms, the functions differ
+        c1, c2 = rng.sample([1.0, 2.0, 3.0, -1.0, 0.5], 2)
+        aa, ab = cl_abs(x), cl_abs(x[::-1])
+        pa, pb = cl_pos(x), cl_pos(x[::-1])
+        pairs += [(c1 * aa[0] + c2 * aa[1], c1 * ab[0] + c2 * ab[1], False), (c1 * pa[0] + c2 * pa[1], c1 * pb[0] + c2 * pb[1], False),
+                  (cl.weighted_sum_exp(np.array([abs(c1), abs(c1) + 1]), x), cl.weighted_sum_exp(np.array([abs(c1), abs(c1) + 1]), x[::-1]), False),
+                  (c1 * aa[0] + c2 * aa[1], c2 * aa[1] + c1 * aa[0], True)]
         for pk, (a, b, want) in enumerate(pairs):
             ctx.case({'stream': 'are_equivalent', 'pair': pk})
             ctx.count('stream:are_equivalent')
